@@ -28,6 +28,7 @@ type fakeStream struct {
 	failAt  int   // fail the Read call with this index (-1 = never)
 	failErr error
 	eofErr  error // error at end of input (default io.EOF)
+	eofWithData bool // the last bytes are returned together with the end-of-input error (as a QUIC stream does on FIN)
 	out     []byte
 	writes  [][]byte // one entry per Write call
 	wrFail  int      // fail the Write call with this index (-1 never)
@@ -76,6 +77,12 @@ func (s *fakeStream) Read(p []byte) (int, error) {
 	}
 	copy(p, s.in[s.off:s.off+n])
 	s.off += n
+	if s.eofWithData && !s.live && s.off >= len(s.in) {
+		if s.eofErr != nil {
+			return n, s.eofErr
+		}
+		return n, io.EOF
+	}
 	return n, nil
 }
 
